@@ -281,6 +281,9 @@ impl Scenario for C04 {
         let mut wrng = Rng::derive(spec.seed, spec.index, 1);
         let w = if spec.overrides.is_null() { gen_workload(&mut wrng, spec.tier_thorough) } else { spec.overrides.clone() };
         report::set_workload(w.clone());
+        if spec.gen_only {
+            return;
+        }
         let mut faults = vmh::default_faults(spec.seed, spec.index);
         faults.gc_num = w["gc"][0].as_u64().unwrap_or(0);
         faults.gc_den = w["gc"][1].as_u64().unwrap_or(1);
